@@ -18,7 +18,7 @@ func zzHas(list, item string) bool {
 func zzUserFnFailed() bool {
 	for _, c := range zzCallLog {
 		switch c.fn {
-		case "fail", "aggfail":
+		case "fail", "aggfail", "failrt":
 			return true
 		case "failnum":
 			if _, ok := c.args[0].(float64); ok {
@@ -154,6 +154,13 @@ func zzH_Eval() {
 		}
 	}
 	if zzHas(checks, "C14") {
+		// a navigation error names a step of this query, whatever a user function returned
+		switch e := err.(type) {
+		case ErrorMemberNotExist:
+			zzAssert(zzContainsStr(zzPath("path"), e.node.text), "error-names-a-step-of-the-query")
+		case ErrorTypeUnmatched:
+			zzAssert(zzContainsStr(zzPath("path"), e.node.text), "error-names-a-step-of-the-query")
+		}
 		if len(sp.fcalls) == 0 && zzParam("infilter") == "1" {
 			// the reference never evaluated the filter (no member): how often
 			// an operand is evaluated is not prescribed, nothing to compare
@@ -196,4 +203,13 @@ func zzH_Eval() {
 			zzAssert(named, "function-failed-names-a-failed-function")
 		}
 	}
+}
+
+func zzContainsStr(s, sub string) bool {
+	for i := 0; i+len(sub) <= len(s); i++ {
+		if s[i:i+len(sub)] == sub {
+			return true
+		}
+	}
+	return false
 }
